@@ -20,7 +20,8 @@
        2. node loop over new-or-default siblings: for the first new node of a schema node that can have a default
           (leaf / leaf-list with default, NP container): delete the default instances if an explicit one exists (leaf /
           container: else ONE old default instance); duplicate check of a new node; LYD_NEW cleared; a default node
-          directly in a non-default case without any explicit node of that case is deleted;
+          whose closest enclosing non-default case (walking up over default cases, 357db45) holds no explicit node
+          is deleted;
        3. lyd_new_implicit on the same list;
        4. descend into every inner sibling (steps 1-4 on its children);
      after the whole tree: lyd_validate_final_r (checks, then lyd_np_cont_dflt_set bottom-up).
@@ -248,14 +249,22 @@ Definition autodel_dflt (sch : schema) (bef : list dnode) (cur : dnode) (aft : f
         end
     end.
 
-(* lyd_validate_autodel_case_dflt: the default node cur is a direct member of a case that is not the default case and
-   holds no explicit node *)
+(* lyd_validate_autodel_case_dflt (as of 357db45): walk up from the case the default node cur is a direct member of, over
+   cases that are the default case of their choice; if the top is reached the node is data of default cases only and is
+   kept; otherwise the first case that is NOT a default case must hold an explicit node (anywhere below it), else cur is
+   left over from a case that no longer exists.
+   stale_prefix works on the REVERSED chain (innermost case first) and returns the reversed chain prefix that ends with
+   that non-default case. *)
+Fixpoint stale_prefix (r : list chc) : option (list chc) :=
+  match r with
+  | [] => None
+  | x :: r' => if ch_dflt x then stale_prefix r' else Some (x :: r')
+  end.
+
 Definition case_leftover (sch : schema) (all : forest) (cur : dnode) : bool :=
-  match rev (chainf sch (d_sid cur)) with
-  | [] => false
-  | x :: _ =>
-      if ch_dflt x then false
-      else negb (existsb (fun n => chain_pre (map cc_of (chainf sch (d_sid cur))) (chainf sch (d_sid n)) && negb (d_dflt n)) all)
+  match stale_prefix (rev (chainf sch (d_sid cur))) with
+  | None => false
+  | Some rp => negb (existsb (fun n => chain_pre (map cc_of (rev rp)) (chainf sch (d_sid n)) && negb (d_dflt n)) all)
   end.
 
 Fixpoint vnew_loop (fuel : nat) (sch : schema) (path : list pstep) (bef : list dnode) (aft : forest)
